@@ -31,7 +31,7 @@ def exhaustive(tier):
 
 def required(tier):
     return ["sustain:int_equal", "sustain:int_open", "sustain:tuple_with_zero", "sustain:tuple_all_different", "orange_nonzero",
-            "sustain_crosses>=2_tempo_changes", "max_end_not_on_last_note", "empty_track", "flag_length_nonzero", "track_with_S_E_only", "concurrent_stage"]
+            "sustain_crosses>=2_tempo_changes", "max_end_not_on_last_note", "empty_track", "flag_length_nonzero", "track_with_S_E_only", "concurrent_stage", "ticks_around_2^31..10^12"]
 
 
 def shards(tier, seed):
@@ -131,6 +131,11 @@ def run_shard(shard, rec, tier, seed):
         keep = mcheck.Keep()
         for i in range(shard["count"]):
             rng = harness.rng_for(seed, ID, shard["name"], i)
+            if i % 13 == 5:
+                case = gen.huge_tick_chart(rng)
+                rec.cls("ticks_around_2^31..10^12")
+                judge(rec, case, [case["text"]])
+                continue
             case = gen.gen_chart(rng, "hostile" if i % 2 else "realistic", n_tracks=rng.choice([1, 2, 4]),
                                  n_groups=rng.choice([0, 1, 3, 20, 100]) if i % 20 else 2500, n_tempos=rng.choice([1, 3, 8, 30]) if i % 20 else 150,
                                  n_globals=0)
